@@ -23,6 +23,9 @@ pub enum Action {
     /// Block sync between two correct nodes.
     Sync { from: u16, to: u16 },
     Crash { node: u16 },
+    /// The process dies inside its `after`-th next durable write of the replica state (the write reaches the disk or not);
+    /// whatever the replica had put on the wire before that instant counts as sent.
+    CrashInWrite { node: u16, after: u8, applied: bool },
     Restart { node: u16 },
     /// Node clock advances.
     Advance { node: u16, ms: u32 },
@@ -172,15 +175,28 @@ pub fn gen_case(ch: &mut Choices, p: &Profile) -> SimCase {
                     }
                     actions.push(all(2));
                     actions.push(Action::Flush { mask: u16::MAX, kinds: 0, limit: 0, rounds: 1 });
-                    actions.push(Action::Timeout { mask: bit(2) | bit(3) });
-                    for k in [2, 3] {
-                        actions.push(Action::Crash { node: sel(k) });
-                        actions.push(Action::Restart { node: sel(k) });
+                    // (variant "vote amnesia": the two nodes die inside the durable write that records their vote for the
+                    // proposal - write lost - and restart; everybody but the node that learns the certificate then times out)
+                    let vote_amnesia = ch.bool();
+                    if vote_amnesia {
+                        for k in [2, 3] {
+                            actions.push(Action::CrashInWrite { node: sel(k), after: 0, applied: false });
+                        }
+                        actions.push(Action::Flush { mask: bit(0) | bit(1) | bit(2) | bit(3), kinds: 1, limit: 1000, rounds: 1 });
+                        for k in [2, 3] {
+                            actions.push(Action::Restart { node: sel(k) });
+                        }
+                    } else {
+                        actions.push(Action::Timeout { mask: bit(2) | bit(3) });
+                        for k in [2, 3] {
+                            actions.push(Action::Crash { node: sel(k) });
+                            actions.push(Action::Restart { node: sel(k) });
+                        }
+                        actions.push(Action::Flush { mask: bit(0) | bit(1) | bit(2) | bit(3), kinds: 1, limit: 1000, rounds: 1 });
                     }
-                    actions.push(Action::Flush { mask: bit(0) | bit(1) | bit(2) | bit(3), kinds: 1, limit: 1000, rounds: 1 });
                     actions.push(Action::Flush { mask: bit(0), kinds: 2, limit: 1000, rounds: 1 });
                     actions.push(Action::Complete { reveal: bit(0), alt_order: false });
-                    actions.push(Action::Timeout { mask: bit(1) | bit(4) });
+                    actions.push(Action::Timeout { mask: if vote_amnesia { bit(1) | bit(2) | bit(3) | bit(4) } else { bit(1) | bit(4) } });
                     actions.push(Action::CompleteTimeouts { lie: ch.pick(&[0u8, 5, 0, 4]), reveal: u16::MAX });
                     actions.push(all(2));
                     actions.push(Action::Complete { reveal: u16::MAX, alt_order: ch.bool() });
@@ -288,7 +304,13 @@ pub fn gen_case(ch: &mut Choices, p: &Profile) -> SimCase {
             18 | 19 => Action::Deliver { msg: ch.raw(), to: ch.raw(), reencode: ch.chance(1, 4) },
             20 => Action::Sync { from: ch.raw(), to: ch.raw() },
             12 | 13 => Action::Lose { mask: mask(ch), kinds: if ch.bool() { KIND_ALL } else { ch.below(16) as u8 } },
-            21 if p.crashes => Action::Crash { node: ch.raw() },
+            21 if p.crashes => {
+                if ch.chance(1, 3) {
+                    Action::CrashInWrite { node: ch.raw(), after: ch.below(3) as u8, applied: ch.bool() }
+                } else {
+                    Action::Crash { node: ch.raw() }
+                }
+            }
             22 | 23 if p.crashes => Action::Restart { node: ch.raw() },
             24 => Action::Advance { node: ch.raw(), ms: ch.pick(&[1u32, 500, 2000, 10_000]) },
             25 if p.crashes => Action::Defer { node: ch.raw(), on: ch.bool() },
@@ -481,6 +503,14 @@ pub async fn apply(w: &mut World, a: &Action, info: &mut RunInfo) -> Result<(), 
                 info.crashes += 1;
             }
             w.crash(i).await;
+        }
+        Action::CrashInWrite { node, after, applied } => {
+            let i = pick_node(w, *node);
+            if w.node(i).is_up() {
+                let call = w.node(i).engine.st.lock().unwrap().set_state_calls + *after as u64;
+                w.arm_crash(i, crate::engine::CrashPoint { call, applied: *applied });
+                info.crashes += 1;
+            }
         }
         Action::Restart { node } => {
             let i = pick_node(w, *node);
